@@ -65,6 +65,9 @@ func (t *tr) lvalue(e ast.Expr) (lval, bool) {
 			return []string{"let " + n + " : " + leanTy(ty) + " := " + c}
 		}}, true
 	case *ast.SelectorExpr:
+		if lv, ok := t.lvalue6(x); ok { // translate6.go: &a.B.C
+			return lv, true
+		}
 		id, ok := x.X.(*ast.Ident)
 		if ok {
 			if bty, _ := t.lookup(id.Name); isStruct(bty) {
